@@ -239,6 +239,8 @@ PROPS["C14"] = dict(
 # locks below the log's own (the OrderedMap's) are outside the controlled schedules: a free-running stress of merges
 # from logs that are being appended to, under the race detector and a termination watchdog, is part of the check
 PROPS["C14"]["race_stress"] = dict(stream="conc-stress", ms_quick=4000, ms_thorough=60000)
+# "a crash loses at most operations that had not returned": an acknowledged append must stay reachable from the heads
+# also when appends overlap on one log — the free-running stress checks that every entry held is a value
 
 PROPS["C17"] = dict(
     title="The block store is causally closed at every instant (crash safety)",
@@ -250,6 +252,7 @@ PROPS["C17"] = dict(
     design_ref="§8 C17",
     rule="crash stream: 2-4 replicas (few writers, so replicas often share an identity and identical blocks arise), some read-only (denying) replicas, 12-32 ops of append (small payload alphabet)/join/publish; every write prefix checked; up to 14 returned identifiers x 2 store snapshots loaded; distinct = distinct operation shapes; non-trivial = at least one successful append",
 )
+PROPS["C17"]["race_stress"] = dict(stream="conc-stress", ms_quick=4000, ms_thorough=60000)
 
 for _pid in OMAP_PROPS:
     PROPS[_pid]["streams"] = PROPS[_pid]["streams"] + [OMAP_STREAM]
